@@ -9,7 +9,7 @@ one() {
   (cd "$SCR" && patch -p1 -s < "$OUT/patch.diff") || { echo "$NAME PATCH-FAILED"; rm -rf "$SCR"; return; }
   CAUGHT=""; : > "$OUT/check_output.txt"
   for i in $(seq -w 1 20); do
-    o=$("$DIR/check" C$i --repo "$SCR" --no-evidence --no-fixture 2>&1); rc=$?
+    o=$("${CHECK:-$DIR/check}" C$i --repo "$SCR" --no-evidence --no-fixture 2>&1); rc=$?
     if [ $rc -ne 0 ]; then CAUGHT="$CAUGHT C$i"; echo "== C$i (exit $rc)" >> "$OUT/check_output.txt"; echo "$o" | grep -E "rule=|BROKEN" | sed "s#$SCR/##g" | cut -c1-400 >> "$OUT/check_output.txt"; fi
   done
   rm -rf "$SCR"
@@ -21,5 +21,5 @@ json.dump(m,open(out+'/meta.json','w'),indent=1)
 PY
   echo "$NAME caught_by:$CAUGHT"
 }
-export -f one; export DIR
+export -f one; export DIR CHECK
 printf "%s\n" $names | xargs -P 6 -I{} bash -c 'one {}'
